@@ -58,6 +58,12 @@ def enumerate_cases(tier):
     for n in ((1, 2) if tier == "quick" else (1, 2, 3, 4)):
         for seq_ in itertools.product(al, repeat=n):
             yield dict(base, ops=list(seq_), exhaustive=True)
+    # a store_object whose SOURCE stream raises while it is read is a rejected call too: state as before, no temporary file
+    for algo in ("SHA-256", "MD5"):
+        for fail_at in (0, 1, 4096, 8192, 5 * 4096):
+            for en in ("EIO", "ETIMEDOUT"):
+                yield {"family": "flaky-stream", "judge_residue": True, "cfg": {"algo": algo, "depth": 2, "width": 2},
+                       "contents": [{"pat": "f1a2", "n": 6 * 4096 + 7}], "fail_at": fail_at, "errno": en, "ops": []}
 
 
 @st.composite
@@ -87,6 +93,13 @@ def strategy(tier):
 
 
 def run_case(case, ctx):
+    if case.get("family") == "flaky-stream":
+        from . import c01
+        return c01._flaky_case(case, ctx)
+    return _run_case(case, ctx)
+
+
+def _run_case(case, ctx):
     run = seq.Run(case, ctx)
     trace, feats = [], set()
     deleted = set()
